@@ -31,13 +31,13 @@ import (
 )
 
 type Leg struct {
-	Profile  string `json:"profile"`
-	Quick    int    `json:"quick"`
-	Thorough int    `json:"thorough"`
-	QuickS   int    `json:"quick_s"`    // wall cap per worker, seconds
-	ThoroughS int   `json:"thorough_s"`
-	Race     bool   `json:"race,omitempty"`
-	Dense    string `json:"dense,omitempty"`
+	Profile   string `json:"profile"`
+	Quick     int    `json:"quick"`
+	Thorough  int    `json:"thorough"`
+	QuickS    int    `json:"quick_s"` // wall cap per worker, seconds
+	ThoroughS int    `json:"thorough_s"`
+	Race      bool   `json:"race,omitempty"`
+	Dense     string `json:"dense,omitempty"`
 }
 
 type Spec struct {
@@ -102,7 +102,9 @@ func env() []string {
 func build(scr string, mode string, dense string) {
 	cmd := exec.Command(filepath.Join(verif, "build.sh"), scr, mode)
 	cmd.Env = env()
-	if dense != "" {
+	if strings.HasPrefix(dense, "stmt:") {
+		cmd.Env = append(cmd.Env, "VERIF_VDENSE="+dense[5:])
+	} else if dense != "" {
 		cmd.Env = append(cmd.Env, "VERIF_DENSE="+dense)
 	}
 	cmd.Stdout, cmd.Stderr = os.Stderr, os.Stderr
@@ -125,8 +127,11 @@ func runWorker(bin string, args []string, gomaxprocs int, timeout time.Duration)
 	// code under test becomes an "out of memory" crash of that worker (reported
 	// with its seed) instead of an OOM kill of the whole check
 	sh := "ulimit -v " + memLimitKB() + " 2>/dev/null; exec \"$0\" \"$@\""
+	if strings.HasSuffix(bin, "-race") {
+		sh = "exec \"$0\" \"$@\"" // the race detector reserves terabytes of address space
+	}
 	cmd := exec.Command("/bin/sh", append([]string{"-c", sh, bin}, args...)...)
-	cmd.Env = append(os.Environ(), "GOMAXPROCS="+strconv.Itoa(gomaxprocs), "GOTRACEBACK=all")
+	cmd.Env = append(os.Environ(), "GOMAXPROCS="+strconv.Itoa(gomaxprocs), "GOTRACEBACK=all", "GORACE=halt_on_error=0")
 	cmd.Dir = os.TempDir()
 	so, _ := cmd.StdoutPipe()
 	var se bytes.Buffer
@@ -403,7 +408,15 @@ func check(prop, tier string) int {
 					"-n", fmt.Sprint(per), "-seconds", fmt.Sprint(capS), "-known", filepath.Join(verif, "known_findings.txt"), "-prop", prop}
 				gmp := 1
 				if leg.Race {
+					// free mode: the Go scheduler interleaves the goroutines, the race
+					// detector watches; the oracles of the controlled mode do not apply
 					gmp = 4
+					args = append(args, "-free")
+					for i := range args {
+						if args[i] == "-prop" {
+							args[i+1] = "__races_only__"
+						}
+					}
 				}
 				results[w] = runWorker(bin, args, gmp, 180*time.Second)
 			}(w)
@@ -423,6 +436,14 @@ func check(prop, tier string) int {
 				continue
 			}
 			s := r.sum
+			if leg.Race {
+				for _, rc := range parseRaces(r.stderr) {
+					agg.Extra["data_race_reports"]++
+					allViols = append(allViols, replayFile{Property: prop, Profile: leg.Profile, Seed: r.lastRun,
+						Plan:      json.RawMessage(`{"note":"race reports are reproduced statistically: run the -race worker in free mode over the seed range of the evidence file"}`),
+						Violation: violation{Prop: prop, Oracle: "data-race", Msg: rc}})
+				}
+			}
 			legRuns += s.Runs
 			agg.Runs += s.Runs
 			agg.Nontrivial += s.Nontrivial
@@ -527,6 +548,41 @@ func check(prop, tier string) int {
 		fmt.Printf("  oracle=%s seed=%d msg=%s\n", reported.Violation.Oracle, reported.Seed, reported.Violation.Msg)
 	}
 	return exit
+}
+
+// parseRaces extracts the race reports whose two accesses are both in code of
+// tsuna/gohbase (not in the simulator or the harness).
+func parseRaces(stderr string) []string {
+	var out []string
+	seen := map[string]bool{}
+	blocks := strings.Split(stderr, "WARNING: DATA RACE")
+	for _, b := range blocks[1:] {
+		if i := strings.Index(b, "=================="); i >= 0 {
+			b = b[:i]
+		}
+		var tops []string
+		lines := strings.Split(b, "\n")
+		for i, l := range lines {
+			if (strings.Contains(l, " at 0x") && strings.Contains(l, "by goroutine")) && i+1 < len(lines) {
+				tops = append(tops, strings.TrimSpace(lines[i+1]))
+			}
+		}
+		if len(tops) < 2 {
+			continue
+		}
+		inRepo := func(f string) bool {
+			return strings.HasPrefix(f, "github.com/tsuna/gohbase") && !strings.Contains(f, "verifsimrt")
+		}
+		if !inRepo(tops[0]) || !inRepo(tops[1]) {
+			continue
+		}
+		msg := "data race between " + tops[0] + " and " + tops[1]
+		if !seen[msg] {
+			seen[msg] = true
+			out = append(out, msg)
+		}
+	}
+	return out
 }
 
 func memLimitKB() string {
@@ -646,27 +702,27 @@ func writeEvidence(prop, tier string, seed uint64, spec *Spec, agg *summary, dis
 		runsPerHour = float64(agg.Runs) / wall * 3600
 	}
 	cov := map[string]any{
-		"evaluations":            agg.Runs,
-		"distinct_nontrivial":    distinct,
-		"rule":                   spec.Rule,
-		"samples":                samples,
-		"runs_per_hour":          int(runsPerHour),
-		"seeds_per_hour":         int(runsPerHour),
-		"simulated_time_s":       float64(agg.FakeNS) / 1e9,
-		"scheduler_steps":        agg.Steps,
-		"nontrivial_runs":        agg.Nontrivial,
-		"distinct_interleavings": distinct,
-		"interleaving_measure":   "distinct SHA-256 digests of the full event log (every scheduler decision, wire write, delivery, fault) among non-trivial runs",
-		"fault_kinds_fired":      agg.FaultKinds,
-		"probes_hit":             agg.Probes,
-		"probes_at_zero":         zero,
-		"end_reasons":            agg.Reasons,
-		"legs":                   legs,
-		"real_components":        spec.Real,
-		"stub_components":        spec.Stub,
-		"known_findings_matched": known,
+		"evaluations":                 agg.Runs,
+		"distinct_nontrivial":         distinct,
+		"rule":                        spec.Rule,
+		"samples":                     samples,
+		"runs_per_hour":               int(runsPerHour),
+		"seeds_per_hour":              int(runsPerHour),
+		"simulated_time_s":            float64(agg.FakeNS) / 1e9,
+		"scheduler_steps":             agg.Steps,
+		"nontrivial_runs":             agg.Nontrivial,
+		"distinct_interleavings":      distinct,
+		"interleaving_measure":        "distinct SHA-256 digests of the full event log (every scheduler decision, wire write, delivery, fault) among non-trivial runs",
+		"fault_kinds_fired":           agg.FaultKinds,
+		"probes_hit":                  agg.Probes,
+		"probes_at_zero":              zero,
+		"end_reasons":                 agg.Reasons,
+		"legs":                        legs,
+		"real_components":             spec.Real,
+		"stub_components":             spec.Stub,
+		"known_findings_matched":      known,
 		"runs_with_leaked_goroutines": agg.Leaked,
-		"extra":                  agg.Extra,
+		"extra":                       agg.Extra,
 	}
 	ev := map[string]any{
 		"property_id": prop,
